@@ -25,14 +25,23 @@ K_BYTE = 4
 K_REP = 3
 
 
+# Configurations with domain="other", clk=[divider of "other", divider of "usb"]: the detector is built with the
+# non-default constructor parameter domain="other" inside a wrapper that also contains an unrelated "usb" domain ticking
+# at a different (phase-locked) rate.  One action = one tick of the detector's own domain; everything is judged in
+# those ticks, and the outputs must not move between them.
 def configs(tier):
     if tier == "quick":
         return [dict(min_gap=2, payloads=[0x00, 0xA5], garbage=False),
-                dict(min_gap=3, payloads=[0x5A, 0xFF], garbage=True)]
+                dict(min_gap=3, payloads=[0x5A, 0xFF], garbage=True),
+                dict(min_gap=2, payloads=[0x00, 0xA5], garbage=False, domain="other", clk=[2, 1])]
     return [dict(min_gap=2, payloads=[0x00, 0xA5], garbage=False),
             dict(min_gap=2, payloads=[0x00, 0x01, 0x80, 0xFF], garbage=True),
             dict(min_gap=3, payloads=[0x5A, 0xFF, 0x00], garbage=True),
-            dict(min_gap=6, payloads=[0x11, 0xEE], garbage=True)]
+            dict(min_gap=6, payloads=[0x11, 0xEE], garbage=True),
+            dict(min_gap=2, payloads=[0x00, 0xA5], garbage=False, domain="other", clk=[2, 1]),
+            dict(min_gap=2, payloads=[0x3C, 0xC3], garbage=True, domain="other", clk=[1, 3]),
+            dict(min_gap=3, payloads=[0x00, 0xFF], garbage=False, domain="other", clk=[3, 1]),
+            dict(min_gap=2, payloads=[0x00, 0xA5], garbage=False, domain="other", clk=[1, 2])]
 
 
 class BoundarySpec(Spec):
@@ -51,20 +60,58 @@ class BoundarySpec(Spec):
 
     def build(self):
         from luna.gateware.usb.stream import USBOutStreamBoundaryDetector
-        d = USBOutStreamBoundaryDetector()
+        clk = self.cfg.get("clk")
+        if not clk:
+            d = top = USBOutStreamBoundaryDetector()
+            clocks = None
+        else:
+            from amaranth import Module, Signal, Elaboratable
+            d = USBOutStreamBoundaryDetector(domain=self.cfg["domain"])
+
+            class Wrapper(Elaboratable):
+                def elaborate(self, platform):
+                    m = Module()
+                    m.submodules.detector = d
+                    # the unrelated second domain, present and ticking at its own rate; and an anchor that keeps the
+                    # detector's own domain in the netlist whatever the detector does with its `domain` parameter
+                    m.d.usb += Signal(name="harness_usb_anchor").eq(1)
+                    m.d[self_cfg_domain] += Signal(name="harness_own_anchor").eq(1)
+                    return m
+            self_cfg_domain = self.cfg["domain"]
+            top = Wrapper()
+            # own domain ticks on the LAST engine step of each of its periods: all steps of a period see the same state
+            clocks = {self.cfg["domain"]: (clk[0], clk[0] - 1), "usb": (clk[1], 0)}
         u, p = d.unprocessed_stream, d.processed_stream
-        return Design(d, dict(valid=u.valid, next=u.next, payload=u.payload, complete_in=d.complete_in, invalid_in=d.invalid_in),
+        return Design(top, dict(valid=u.valid, next=u.next, payload=u.payload, complete_in=d.complete_in, invalid_in=d.invalid_in),
                       dict(o_valid=p.valid, o_next=p.next, o_payload=p.payload, first=d.first, last=d.last,
-                           complete_out=d.complete_out, invalid_out=d.invalid_out))
+                           complete_out=d.complete_out, invalid_out=d.invalid_out), clocks=clocks)
+
+    def _own_tick(self, cur, phase, **kw):
+        """advance the detector's own domain by one tick; returns (observation, new engine-step phase)"""
+        clk = self.cfg.get("clk")
+        if not clk:
+            return cur.step(**kw), 0
+        m = cur.model
+        v = m.vec(**kw)
+        lcm = max(clk)
+        first = None
+        for _ in range(clk[0]):
+            o = cur.step_vec(v, m._masks[phase])
+            phase = (phase + 1) % lcm
+            if first is None: first = o
+            elif o != first:
+                raise Violation("output-changed-between-own-clock-ticks", dict(clk=clk, before=list(first), after=list(o)))
+        return first, phase
 
     def assumptions(self):
-        return ["USBOutStream/UTMI rule: `next` is only asserted while `valid` is high; a packet is one contiguous `valid` period",
+        return ["multi-clock configurations: inputs change only at ticks of the detector's own domain; the second domain is phase-locked with an integer divider",
+                "USBOutStream/UTMI rule: `next` is only asserted while `valid` is high; a packet is one contiguous `valid` period",
                 f"`valid` stays low for at least min_gap (>= 2) cycles between packets (UTMI: RXActive is low for the EOP + inter-packet delay, several 60 MHz cycles)",
                 "a byte is transferred on a stream in a cycle with valid & next; first/last are only meaningful on such cycles",
                 "input strobes outside the window (first-byte cycle, first valid-low cycle] of a packet with bytes may be reported or dropped",
                 f"bounded liveness: bytes are delivered within {K_BYTE} cycles of being decidable, reports within {K_REP} cycles of the last byte"]
 
-    # env = (phase, low, queue, head_age, early, acc, rep)
+    # env = (phase, low, queue, head_age, early, acc, rep, ck)      ck = engine step index mod lcm (multi-clock configs)
     #   phase  'gap' | 'pre' (valid high, no byte yet) | 'in' (valid high, >= 1 byte)
     #   low    cycles valid has been low (saturating at G); start allowed when low >= G
     #   queue  tuple of (payload, first, last) not yet output; last None = not yet decidable (newest byte of an open packet)
@@ -72,7 +119,7 @@ class BoundarySpec(Spec):
     #   acc    (must_c, may_c, must_i, may_i) input strobes collected for the packet in progress
     #   rep    None | (must_c, may_c, must_i, may_i, stage, age, done_c, done_i); stage 0 = last byte not yet output
     def env0(self):
-        return ("gap", self.G, (), 0, None, (0, 0, 0, 0), None)
+        return ("gap", self.G, (), 0, None, (0, 0, 0, 0), None, 0)
 
     def actions(self, env):
         phase, low = env[0], env[1]
@@ -83,11 +130,9 @@ class BoundarySpec(Spec):
         return dict(stream=a[0], payload=a[1], complete_in=a[2], invalid_in=a[3])
 
     def apply(self, cur, env, a):
-        phase, low, queue, head_age, early, acc, rep = env
+        phase, low, queue, head_age, early, acc, rep, ck = env
         op, val, cin, iin = a
-        if op == "lo": o = cur.step(valid=0, next=0, payload=val, complete_in=cin, invalid_in=iin)
-        elif op == "hi": o = cur.step(valid=1, next=0, payload=val, complete_in=cin, invalid_in=iin)
-        else: o = cur.step(valid=1, next=1, payload=val, complete_in=cin, invalid_in=iin)
+        o, ck = self._own_tick(cur, ck, valid=int(op != "lo"), next=int(op == "byte"), payload=val, complete_in=cin, invalid_in=iin)
         queue = list(queue)
         info = dict(action=self.label(a), phase=phase, queue=[list(q) for q in queue], acc=list(acc), rep=list(rep) if rep else None,
                     out=dict(valid=o.o_valid, next=o.o_next, payload=o.o_payload, first=o.first, last=o.last,
@@ -186,16 +231,16 @@ class BoundarySpec(Spec):
                 if rep is not None and rep[4] == 0:
                     r = list(rep); r[4] = 1; r[5] = 0; rep = tuple(r)
                     # (the age of the report clock starts in the next cycle)
-                    return self._ret(phase, low, queue, head_age, early, acc, rep, aged=False)
+                    return self._ret(phase, low, queue, head_age, early, acc, rep, ck, aged=False)
         elif o.o_next and not o.o_valid:
             raise Violation("next-without-valid-on-output", info)
         elif queue and queue[0][2] is not None:
             head_age += 1
             if head_age > K_BYTE:
                 raise Violation("byte-not-delivered", dict(info, waited=head_age))
-        return self._ret(phase, low, queue, head_age, early, acc, rep, aged=True)
+        return self._ret(phase, low, queue, head_age, early, acc, rep, ck, aged=True)
 
-    def _ret(self, phase, low, queue, head_age, early, acc, rep, aged):
+    def _ret(self, phase, low, queue, head_age, early, acc, rep, ck, aged):
         if rep is not None and rep[4] == 1 and aged:
             r = list(rep); r[5] += 1
             if r[5] > K_REP:
@@ -206,7 +251,7 @@ class BoundarySpec(Spec):
                 rep = tuple(r)
         if len(queue) > 6:
             raise Violation("byte-not-delivered", dict(queue=queue))
-        return (phase, low, tuple(queue), head_age, early, acc, rep)
+        return (phase, low, tuple(queue), head_age, early, acc, rep, ck)
 
     def goals(self):
         return ["first_byte_out", "last_byte_out", "one_byte_packet", "packet_ge2_bytes", "pause_between_bytes", "byte_less_packet",
